@@ -110,8 +110,15 @@ def gen_num7():
 
     # --- toRoman -----------------------------------------------------------------------------
     b = _norm(function_body(src, r"ElemNumber::toRoman\s*\([^)]*\)\s*\{", "toRoman"))
-    m = need(lit("if(val == 0) { theResult = XalanUnicode::charDigit_0; } else if (val > @INT@) { theResult = s_errorString; }"), b, "toRoman: 0 and the upper limit")
+    m = need(lit("if(val == 0) { theResult = XalanUnicode::charDigit_0; } else if (val > @INT@) {"), b, "toRoman: 0 and the upper limit")
     roman_limit = int(m.group(1))
+    # above the limit: either the error string, or (like 0) the decimal representation
+    if re.search(lit("else if (val > @INT@) { theResult = s_errorString; } else {"), b):
+        roman_overflow_decimal = False
+    elif re.search(lit("else if (val > @INT@) { theResult.clear(); NumberToDOMString(static_cast<XMLUInt64>(val), theResult); } else {"), b):
+        roman_overflow_decimal = True
+    else:
+        raise AnchorError("toRoman: the branch for values above the limit is neither the error string nor the decimal representation")
     need(lit("size_t place = 0; DecimalToRoman::ValueType localValue = val;"
              " do { @ANY@ const DecimalToRoman& theCurrent = s_romanConvertTable[place];"
              " while (localValue >= theCurrent.m_postValue) { theResult += theCurrent.m_postLetter; localValue -= theCurrent.m_postValue; }"
@@ -236,10 +243,12 @@ def gen_num7():
     out += "(* ElemNumber::s_romanConvertTable: (postValue, postLetter, preValue, preLetter) *)\n"
     out += "Definition roman_table : list (N * list N * N * list N) :=\n  [" + ";\n   ".join(
         "(%d%%N, %s, %d%%N, %s)" % (a, coq_nlist(b_), c_, coq_nlist(d_)) for a, b_, c_, d_ in roman) + "].\n\n"
-    out += "(* toRoman: values above this print the error string *)\nDefinition roman_limit : N := %d%%N.\n\n" % roman_limit
+    out += "(* toRoman: values above this have no roman numeral *)\nDefinition roman_limit : N := %d%%N.\n\n" % roman_limit
+    out += "(* toRoman above the limit: true = the decimal representation (as for 0), false = the error string *)\n"
+    out += "Definition roman_overflow_decimal : bool := %s.\n\n" % ("true" if roman_overflow_decimal else "false")
     out += "(* getFormattedNumber: format letters that raise NumberingFormatNotSupported *)\n"
     out += "Definition unsupported_types : list N := %s.\n" % coq_nlist(unsupported)
-    facts.update({"alpha_table_len": len(alpha), "buflen": buflen, "roman_entries": len(roman), "roman_limit": roman_limit,
+    facts.update({"alpha_table_len": len(alpha), "buflen": buflen, "roman_entries": len(roman), "roman_limit": roman_limit, "roman_overflow_decimal": roman_overflow_decimal,
                   "unsupported": unsupported})
     return out, facts
 
